@@ -31,6 +31,9 @@ This property is *partial* with respect to the Twisted runtime: Deferred chainin
 * `C14_in_time_iff_recorded` : the declarative `inTime` ⇔ `Spinner.run` returned the chain's verdict (determined
                                before `_clean`'s iterations)
 * `C14_loop_ends_by_crash`   : the reactor loop ends by a crash within the model's fuel
+* `C14_src_chain_tree`, `C14_src_chain_start`, `C14_src_chain_resume`, `C14_src_chain_tail`, `C14_src_account`, `C14_src_iterations`,
+  `C14_src_shapes`             : translator tie - the model's chain and accounting are the interpretation (`TTV.AsyncSkel`) of
+                               `_run_deferred`, `_run_cleanups`, `_blocking_run_deferred`, `_run_core` … as re-read from `_runtest.py`
 
 Proof structure: `Reach` (what a chain step can do) · `Inv1` (queue/clock/spinner invariant of the loop, incl. the
 iteration in which each queued call was scheduled) · `pot` (termination) · `Run`/`Susp`/`Fin` (chain invariant through
